@@ -20,6 +20,20 @@ Theorem C20_direction_guards_are_source : forall v m d,
 Proof. exact model_dir_guards. Qed.
 Print Assumptions C20_direction_guards_are_source.
 
+(* The shape guards of the model are those of the current source: the
+   `if <test on rows, cols>: raise` statements of the transform functions and
+   the tests on self.IM in Transform._verify_some_inputs, evaluated by the
+   translator on the dimensions of each shape class, decide Raise exactly where
+   the model does (for the shape classes the request space contains). *)
+Theorem C20_shape_guards_are_source :
+  (forall m sh, shape_applies Fn m sh = true ->
+     fn_shape_raises m sh = is_raise (fn_outcome m Inverse sh NoOpt))
+  /\ (forall m d o sh, tr_shape_raises sh = true -> tr_outcome m d sh o = Raise)
+  /\ (forall m sh, shape_applies Tr m sh = true -> tr_shape_raises sh = false ->
+     is_raise (tr_outcome m Inverse sh NoOpt) = is_raise (fn_outcome m Inverse sh NoOpt)).
+Proof. exact (conj fn_shape_guards_eq (conj model_tr_shape_guards model_tr_then_fn_shape)). Qed.
+Print Assumptions C20_shape_guards_are_source.
+
 Theorem C20_request_space : length all_requests = 315.
 Proof. exact request_space_size. Qed.
 Print Assumptions C20_request_space.
